@@ -365,6 +365,32 @@ def run(ctx: Ctx):
                          "reproduce": f"g={key0}; sum(g.weights * weight(g.points) * g.points**{d})"})
         return nbad
 
+    # ------------------------------------------------------------------ documented closed forms (implementation only)
+    def check_closed_form(cname, g, n):
+        if cname == "RectangleRuleSineEndPoints":   # Boyd: x_i = i/(n+1), w_i = 2/(n+1) sum_m sin(m pi x_i)(1-cos(m pi))/(m pi); q = 2x-1
+            ref = []
+            for i in range(1, n + 1):
+                x = m.mpf(i) / (n + 1)
+                w = m.mpf(2) / (n + 1) * sum(m.sin(j * m.pi * x) * (1 - m.cos(j * m.pi)) / (j * m.pi) for j in range(1, n + 1))
+                ref.append((2 * x - 1, 2 * w))
+        elif cname == "GaussChebyshevLobatto":      # x_i = cos((i-1) pi/(n-1)), w_i = pi/(n-1) (halved at the ends), times sqrt(1-x_i^2)
+            ref = []
+            for i in range(n, 0, -1):
+                x = m.cos(m.mpf(i - 1) * m.pi / (n - 1))
+                w = m.pi / (n - 1) / (2 if i in (1, n) else 1)
+                ref.append((x, w * m.sqrt(1 - x * x)))
+        elif cname == "UniformInteger":
+            ref = [(m.mpf(i), m.mpf(1)) for i in range(n)]
+        else:
+            return
+        for k, (x, w) in enumerate(ref):
+            ctx.case(("closed", cname, n, k))
+            if abs(m.mpf(float(g.points[k])) - x) > 1e-12 or abs(m.mpf(float(g.weights[k])) - w) > 1e-12:
+                rep.add(n, f"shape_{cname}_closed_form", f"{cname}({n}):closed-form:{k}", [float(g.points[k]), float(g.weights[k])],
+                        f"{cname}({n}): node/weight {k} = {g.points[k]!r}, {g.weights[k]!r}; the documented closed form gives {float(x)!r}, {float(w)!r}",
+                        {"rule": cname, "n": n, "k": k, "expected": [float(x), float(w)], "reproduce": f"g={cname}({n}); g.points[{k}], g.weights[{k}]"})
+                return
+
     # ================================================================== closed-form rules
     plain_specs = [
         ("Trapezoidal", og.Trapezoidal, False, 1), ("MidPoint", og.MidPoint, False, 1), ("Simpson", og.Simpson, True, 3),
@@ -378,6 +404,7 @@ def run(ctx: Ctx):
             g = build(cls, n)
             if not check_shape(cname, str(n), g, n):
                 continue
+            check_closed_form(cname, g, n)
             ctx.count(f"tie:{cname}")
             for k in range(n):
                 case(goal_close(f"pts_{cname} {n} {k}", g.points[k]), "ev; fin", rule=cname, n=n, k=k, what="points", args=str(n))
@@ -545,7 +572,7 @@ def run(ctx: Ctx):
                                 f"{tname}({args}): node/weight {k} = {g.points[k]!r}, {g.weights[k]!r}; arcsin-Taylor map of degree {d} gives {float(px)!r}, {float(wexp)!r}",
                                 {"rule": tname, "args": args, "k": k, "expected": [float(px), float(wexp)], "kind": "trefethen"})
                 # leaf translation validation at the float arguments actually used
-                if d != 1:
+                if d != 1 and (not ctx.quick or n <= 7):
                     for k in range(n):
                         x = float(b.points[k])
                         for fname, fn in (("g2", og._g2), ("derg2", og._derg2)) if d == 5 else (("g3", og._g3), ("derg3", og._derg3)):
@@ -553,7 +580,7 @@ def run(ctx: Ctx):
                                 leaf_pts.add((fname, x))
                                 leaf_case(fname, "", x, float(fn(np.array([x]))[0]), "ev; fin", rule="_" + fname, n=n, k=k, what="leaf", args=repr(x))
                                 ctx.case(("leaf", fname, x))
-            if d != 1:
+            if d != 1 and (not ctx.quick or n <= 8):
                 g = build(og.TrefethenCC, n, d)
                 for k in range(n):
                     case(goal_close(f"pts_TrefethenCC {d} {n} {k}", g.points[k]), "ev; fin", rule="TrefethenCC", n=n, k=k, what="points", args=f"{n}, {d}")
@@ -595,7 +622,7 @@ def run(ctx: Ctx):
                         rep.add(n, "subst_trefethen_strip", f"{tname}({args}):{k}", [float(g.points[k]), float(g.weights[k])],
                                 f"{tname}({args}): node/weight {k} = {g.points[k]!r}, {g.weights[k]!r}; strip map and its derivative give {float(x_ref)!r}, {float(w_ref)!r}",
                                 {"rule": tname, "args": args, "k": k, "expected": [float(x_ref), float(w_ref)], "kind": "strip"})
-                    if ("gstrip", rho, s) not in leaf_pts:
+                    if ("gstrip", rho, s) not in leaf_pts and (not ctx.quick or n <= 7):
                         leaf_pts.add(("gstrip", rho, s))
                         leaf_case("gstrip", rl(rho) + " ", s, float(og._gstrip(rho, np.array([s]))[0]), strip_tactic(s, "g"), rule="_gstrip", n=n, k=k, what="leaf", args=f"{rho!r}, {s!r}")
                         leaf_case("dergstrip", rl(rho) + " ", s, float(og._dergstrip(rho, np.array([s]))[0]), strip_tactic(s, "d"), rule="_dergstrip", n=n, k=k, what="leaf", args=f"{rho!r}, {s!r}")
